@@ -205,6 +205,10 @@ func cmdCheck(args []string) int {
 	}
 	tLoad := time.Since(t0).Seconds()
 	fns := L.allFunctions()
+	loopsPath := filepath.Join(vd, "baseline", *prop+".loops.json")
+	if b, err := os.ReadFile(loopsPath); err == nil {
+		json.Unmarshal(b, &baselineLoopOrdinal)
+	}
 	res := &checkResult{Prop: *prop, Tier: *tier}
 	timeout := 10
 	if *tier == "thorough" {
@@ -466,6 +470,8 @@ func cmdCheck(args []string) int {
 		b, _ := json.MarshalIndent(nb, "", " ")
 		os.WriteFile(basePath, append(b, '\n'), 0o644)
 		fmt.Printf("baseline written: %d obligations\n", len(nb))
+		lb, _ := json.MarshalIndent(loopOrdinalSeen, "", " ")
+		os.WriteFile(loopsPath, append(lb, '\n'), 0o644)
 	}
 
 	// ---- evidence ----
